@@ -169,3 +169,21 @@ Definition pow2Q (w : Z) : Q :=
   | Zneg p => Qmake 1 (2 ^ p)%positive
   end.
 Definition weight_to_prob (w : Z) : Q := (pow2Q w / (1 + pow2Q w))%Q.
+
+(* match-weight view of the threshold filter: keep an edge iff its Bayes factor p/(1-p) is at
+   least 2^w, i.e. its match weight log2(p/(1-p)) is at least w; p = 1 has match weight +inf *)
+Definition keep_edge_weight (w : Z) (e : Z * Z * Q) : bool :=
+  if Qeq_bool (snd e) 1 then true else Qle_bool (pow2Q w) (snd e / (1 - snd e)).
+Definition weight_edges (w : Z) (edges : list (Z * Z * Q)) : list (Z * Z) :=
+  map fst (filter (keep_edge_weight w) edges).
+
+(* composite node id of a link job: source_dataset || '-__-' || unique_id
+   (unique_id_concat.py; ids are compared as these strings) *)
+From Coq Require Import String Ascii.
+Definition composite_sep : string := "-__-"%string.
+Definition composite_id (sds uid : string) : string := (sds ++ composite_sep ++ uid)%string.
+Fixpoint has_char (c : ascii) (s : string) : bool :=
+  match s with
+  | EmptyString => false
+  | String a t => Ascii.eqb a c || has_char c t
+  end.
